@@ -651,4 +651,426 @@ theorem fixVar_inv (S : Sys) (hwf : WF S) (m : Rat) (hm : 0 < m) (st : St) (v : 
   refine ⟨?_, invK_nil S m _ _ _ 0 0 this.1, this.2.1, this.2.2.1, this.2.2.2⟩
   rw [this.2.2.1, this.2.2.2]; exact hG1
 
+
+/-! ### the round: min_bound, the while loop over the saturated variables -/
+
+theorem minBound_spec (S : Sys) (m : Rat) (sv : List Nat) (hp : ∀ v ∈ sv, 0 < (S.var v).penalty) :
+    (minBound S m sv < 0 → ∀ v ∈ sv, ¬ (0 < (S.var v).bound ∧ (S.var v).bound * (S.var v).penalty < m)) ∧
+    (¬ minBound S m sv < 0 → 0 < minBound S m sv ∧ minBound S m sv < m) := by
+  unfold minBound
+  have gen : ∀ (l : List Nat) (a : Rat), (∀ v ∈ l, 0 < (S.var v).penalty) → (a = -1 ∨ (0 < a ∧ a < m)) →
+      let r := l.foldl (fun mb v =>
+        if 0 < (S.var v).bound ∧ (S.var v).bound * (S.var v).penalty < m then
+          (if mb < 0 then (S.var v).bound * (S.var v).penalty
+           else (if (S.var v).bound * (S.var v).penalty < mb then (S.var v).bound * (S.var v).penalty else mb))
+        else mb) a
+      (r = -1 ∨ (0 < r ∧ r < m)) ∧
+      (r < 0 → a < 0 ∧ ∀ v ∈ l, ¬ (0 < (S.var v).bound ∧ (S.var v).bound * (S.var v).penalty < m)) := by
+    intro l
+    induction l with
+    | nil => intro a _ ha; exact ⟨ha, fun h => ⟨h, by simp⟩⟩
+    | cons v t ih =>
+      intro a hpl ha
+      simp only [List.foldl_cons]
+      have hpv := hpl v (by simp)
+      by_cases hc : 0 < (S.var v).bound ∧ (S.var v).bound * (S.var v).penalty < m
+      · simp only [hc, and_self, if_true]
+        have hpos : 0 < (S.var v).bound * (S.var v).penalty := mul_pos hc.1 hpv
+        have ha' : (let a' := (if a < 0 then (S.var v).bound * (S.var v).penalty
+            else (if (S.var v).bound * (S.var v).penalty < a then (S.var v).bound * (S.var v).penalty else a));
+            0 < a' ∧ a' < m) := by
+          simp only []
+          split
+          · exact ⟨hpos, hc.2⟩
+          · split
+            · exact ⟨hpos, hc.2⟩
+            · rcases ha with h | h
+              · rename_i h1 _; exact absurd (by rw [h]; norm_num) h1
+              · exact h
+        have := ih _ (fun u hu => hpl u (by simp [hu])) (Or.inr ha')
+        refine ⟨this.1, fun hr => ?_⟩
+        have := (this.2 hr).1
+        simp only [] at ha'
+        linarith [ha'.1]
+      · simp only [hc, if_false]
+        have := ih a (fun u hu => hpl u (by simp [hu])) ha
+        refine ⟨this.1, fun hr => ⟨(this.2 hr).1, ?_⟩⟩
+        intro u hu
+        simp at hu
+        rcases hu with rfl | hu
+        · exact hc
+        · exact (this.2 hr).2 u hu
+  have := gen sv (-1) hp (Or.inl rfl)
+  simp only [] at this
+  constructor
+  · intro h; exact (this.2 h).2
+  · intro h
+    rcases this.1 with h1 | h1
+    · exact absurd (by rw [h1]; norm_num) h
+    · exact h1
+
+theorem fixLoop_neg (S : Sys) (eps mb mu : Rat) (st : St) (v : Nat) (rest : List Nat) (h : mb < 0) :
+    fixLoop S eps mb mu st (v :: rest) = fixLoop S eps mb mu (fixVar S eps st v (mu / (S.var v).penalty)) rest := by
+  rw [fixLoop]; simp only [h, if_true]
+theorem fixLoop_eq (S : Sys) (eps mb mu : Rat) (st : St) (v : Nat) (rest : List Nat) (h : ¬ mb < 0)
+    (h2 : dblEq mb ((S.var v).bound * (S.var v).penalty) eps = true) :
+    fixLoop S eps mb mu st (v :: rest) = fixLoop S eps mb mu (fixVar S eps st v (S.var v).bound) rest := by
+  rw [fixLoop]; simp only [h, if_false, h2, if_true]
+theorem fixLoop_skip (S : Sys) (eps mb mu : Rat) (st : St) (v : Nat) (rest : List Nat) (h : ¬ mb < 0)
+    (h2 : ¬ dblEq mb ((S.var v).bound * (S.var v).penalty) eps = true) :
+    fixLoop S eps mb mu st (v :: rest) = fixLoop S eps mb mu st rest := by
+  rw [fixLoop]; simp [h, h2]
+
+theorem fixLoop_inv (S : Sys) (hwf : WF S) (m mb : Rat) (hm : 0 < m) (sv : List Nat) :
+    ∀ st : St, InvG S m st.fixed st.value → InvK S m st 0 0 [] → InvL S st →
+      (∀ v ∈ sv, st.fixed v = false ∧ 0 < (S.var v).penalty) → sv.Nodup →
+      (mb < 0 → ∀ v ∈ sv, 0 < (S.var v).bound → m ≤ (S.var v).bound * (S.var v).penalty) →
+      (¬ mb < 0 → 0 < mb ∧ mb < m) →
+      InvG S m (fixLoop S 0 mb m st sv).fixed (fixLoop S 0 mb m st sv).value ∧
+      InvK S m (fixLoop S 0 mb m st sv) 0 0 [] ∧ InvL S (fixLoop S 0 mb m st sv) ∧
+      (∀ u, u ∉ sv → (fixLoop S 0 mb m st sv).fixed u = st.fixed u ∧ (fixLoop S 0 mb m st sv).value u = st.value u) ∧
+      (∀ u, st.fixed u = true → (fixLoop S 0 mb m st sv).fixed u = true ∧ (fixLoop S 0 mb m st sv).value u = st.value u) ∧
+      (∀ u ∈ sv, (mb < 0 ∨ mb = (S.var u).bound * (S.var u).penalty) →
+         (fixLoop S 0 mb m st sv).fixed u = true ∧
+         (fixLoop S 0 mb m st sv).value u = (if mb < 0 then m / (S.var u).penalty else (S.var u).bound)) := by
+  induction sv with
+  | nil => intro st hG hK hL _ _ _ _; exact ⟨hG, hK, hL, fun u _ => ⟨rfl, rfl⟩, fun u h => ⟨h, rfl⟩, by simp⟩
+  | cons v rest ih =>
+    intro st hG hK hL hsv hnd hmb1 hmb2
+    have hv := hsv v (by simp)
+    have hnd' : rest.Nodup := (List.nodup_cons.mp hnd).2
+    have hvr : v ∉ rest := (List.nodup_cons.mp hnd).1
+    -- common continuation once `v` is fixed at `x`
+    have step : ∀ x : Rat, 0 < x → x * (S.var v).penalty ≤ m → (0 < (S.var v).bound → x ≤ (S.var v).bound) →
+        let st1 := fixVar S 0 st v x
+        InvG S m (fixLoop S 0 mb m st1 rest).fixed (fixLoop S 0 mb m st1 rest).value ∧
+        InvK S m (fixLoop S 0 mb m st1 rest) 0 0 [] ∧ InvL S (fixLoop S 0 mb m st1 rest) ∧
+        (∀ u, u ∉ v :: rest → (fixLoop S 0 mb m st1 rest).fixed u = st.fixed u ∧ (fixLoop S 0 mb m st1 rest).value u = st.value u) ∧
+        (∀ u, st.fixed u = true → (fixLoop S 0 mb m st1 rest).fixed u = true ∧ (fixLoop S 0 mb m st1 rest).value u = st.value u) ∧
+        ((fixLoop S 0 mb m st1 rest).fixed v = true ∧ (fixLoop S 0 mb m st1 rest).value v = x) ∧
+        (∀ u ∈ rest, (mb < 0 ∨ mb = (S.var u).bound * (S.var u).penalty) →
+          (fixLoop S 0 mb m st1 rest).fixed u = true ∧
+          (fixLoop S 0 mb m st1 rest).value u = (if mb < 0 then m / (S.var u).penalty else (S.var u).bound)) := by
+      intro x hx hxm hxb
+      have h1 := fixVar_inv S hwf m hm st v x hG hK hL hv.1 hv.2 hx hxm hxb
+      simp only []
+      have hsv' : ∀ u ∈ rest, (fixVar S 0 st v x).fixed u = false ∧ 0 < (S.var u).penalty := by
+        intro u hu
+        have hne : u ≠ v := fun h => hvr (h ▸ hu)
+        rw [h1.2.2.2.1]; simp only [upd, hne, if_false]; exact hsv u (by simp [hu])
+      have h2 := ih (fixVar S 0 st v x) h1.1 h1.2.1 h1.2.2.1 hsv' hnd'
+        (fun h u hu => hmb1 h u (by simp [hu])) hmb2
+      have hvfix : (fixVar S 0 st v x).fixed v = true := by rw [h1.2.2.2.1]; simp
+      refine ⟨h2.1, h2.2.1, h2.2.2.1, ?_, ?_, ?_, h2.2.2.2.2.2⟩
+      · intro u hu
+        simp at hu
+        have := h2.2.2.2.1 u hu.2
+        rw [this.1, this.2, h1.2.2.2.1, h1.2.2.2.2]
+        simp only [upd, hu.1, if_false, and_self]
+      · intro u hu
+        have hne : u ≠ v := fun h => by rw [h, hv.1] at hu; exact absurd hu (by simp)
+        have hf1 : (fixVar S 0 st v x).fixed u = true := by rw [h1.2.2.2.1]; simp only [upd, hne, if_false]; exact hu
+        have := h2.2.2.2.2.1 u hf1
+        rw [this.1, this.2, h1.2.2.2.2]; simp only [upd, hne, if_false, and_self]
+      · have := h2.2.2.2.2.1 v hvfix
+        rw [this.1, this.2, h1.2.2.2.2]; simp
+    have hpv := hv.2
+    by_cases hmb : mb < 0
+    · rw [fixLoop_neg S 0 mb m st v rest hmb]
+      have hx : 0 < m / (S.var v).penalty := div_pos hm hpv
+      have hxm : m / (S.var v).penalty * (S.var v).penalty ≤ m := by rw [div_mul_cancel₀ _ (ne_of_gt hpv)]
+      have hxb : 0 < (S.var v).bound → m / (S.var v).penalty ≤ (S.var v).bound := by
+        intro hb; rw [div_le_iff₀ hpv]; exact hmb1 hmb v (by simp) hb
+      have := step _ hx hxm hxb
+      simp only [] at this
+      refine ⟨this.1, this.2.1, this.2.2.1, this.2.2.2.1, this.2.2.2.2.1, ?_⟩
+      intro u hu hcond
+      simp at hu
+      rcases hu with rfl | hu
+      · simp only [hmb, if_true]; exact this.2.2.2.2.2.1
+      · exact this.2.2.2.2.2.2 u hu hcond
+    · have hmbp := hmb2 hmb
+      by_cases heq : dblEq mb ((S.var v).bound * (S.var v).penalty) 0 = true
+      · rw [fixLoop_eq S 0 mb m st v rest hmb heq]
+        have heq' := (dblEq_zero _ _).mp heq
+        have hb : 0 < (S.var v).bound := by
+          by_contra h
+          have : (S.var v).bound * (S.var v).penalty ≤ 0 := mul_nonpos_of_nonpos_of_nonneg (by linarith) (le_of_lt hpv)
+          linarith [hmbp.1]
+        have := step (S.var v).bound hb (by linarith [hmbp.2]) (fun _ => le_refl _)
+        simp only [] at this
+        refine ⟨this.1, this.2.1, this.2.2.1, this.2.2.2.1, this.2.2.2.2.1, ?_⟩
+        intro u hu hcond
+        simp at hu
+        rcases hu with rfl | hu
+        · simp only [hmb, if_false]; exact this.2.2.2.2.2.1
+        · exact this.2.2.2.2.2.2 u hu hcond
+      · rw [fixLoop_skip S 0 mb m st v rest hmb heq]
+        have hne : mb ≠ (S.var v).bound * (S.var v).penalty := fun h => heq ((dblEq_zero _ _).mpr h)
+        have h2 := ih st hG hK hL (fun u hu => hsv u (by simp [hu])) hnd'
+          (fun h u hu => hmb1 h u (by simp [hu])) hmb2
+        refine ⟨h2.1, h2.2.1, h2.2.2.1, ?_, h2.2.2.2.2.1, ?_⟩
+        · intro u hu
+          simp at hu
+          exact h2.2.2.2.1 u hu.2
+        · intro u hu hcond
+          simp at hu
+          rcases hu with rfl | hu
+          · rcases hcond with h | h
+            · exact absurd h hmb
+            · exact absurd h hne
+          · exact h2.2.2.2.2.2 u hu hcond
+
+
+/-! ### selection of the saturated constraints (min_usage) -/
+
+/-- state of `min_usage` / `saturated_constraints` after the constraints `done` went through
+`saturated_constraints_update` with `remaining_over_usage = rem c / use c` -/
+def SelQ (rem use : Nat → Rat) (done : List Nat) (mu : Rat) (sat : List Nat) : Prop :=
+  (done = [] ∧ mu = -1 ∧ sat = []) ∨
+  (done ≠ [] ∧ 0 < mu ∧ (∀ c ∈ done, mu * use c ≤ rem c) ∧ (∀ c ∈ sat, c ∈ done ∧ mu * use c = rem c) ∧ sat ≠ [])
+
+theorem satCnstUpdate_other (rou : Rat) (c : Nat) (st : St) :
+    (satCnstUpdate rou c st).value = st.value ∧ (satCnstUpdate rou c st).fixed = st.fixed ∧
+    (satCnstUpdate rou c st).remaining = st.remaining ∧ (satCnstUpdate rou c st).usage = st.usage ∧
+    (satCnstUpdate rou c st).light = st.light := by
+  unfold satCnstUpdate; split
+  · simp
+  · split <;> simp
+
+theorem satCnstUpdate_Q (rem use : Nat → Rat) (done : List Nat) (st : St) (c : Nat)
+    (hQ : SelQ rem use done st.minUsage st.sat) (hc : 0 < rem c ∧ 0 < use c) (hdone : ∀ c ∈ done, 0 < use c) :
+    SelQ rem use (done ++ [c]) (satCnstUpdate (rem c / use c) c st).minUsage (satCnstUpdate (rem c / use c) c st).sat := by
+  have hrou : 0 < rem c / use c := div_pos hc.1 hc.2
+  have hrc : rem c / use c * use c = rem c := div_mul_cancel₀ _ (ne_of_gt hc.2)
+  unfold satCnstUpdate
+  rcases hQ with ⟨hd, hmu, hs⟩ | ⟨hd, hmu, hle, hsat, hne⟩
+  · have : st.minUsage < 0 := by rw [hmu]; norm_num
+    simp only [this, true_or, if_true]
+    right
+    refine ⟨by simp, hrou, ?_, ?_, by simp⟩
+    · intro c' hc'; rw [hd] at hc'; simp at hc'; rw [hc', hrc]
+    · intro c' hc'; simp at hc'; rw [hc']; exact ⟨by simp, hrc⟩
+  · by_cases h1 : st.minUsage < 0 ∨ rem c / use c < st.minUsage
+    · simp only [h1, if_true]
+      have h1' : rem c / use c < st.minUsage := by
+        rcases h1 with h | h
+        · linarith
+        · exact h
+      right
+      refine ⟨by simp, hrou, ?_, ?_, by simp⟩
+      · intro c' hc'
+        simp at hc'
+        rcases hc' with hc' | hc'
+        · have := hle c' hc'
+          have := hdone c' hc'
+          nlinarith
+        · rw [hc', hrc]
+      · intro c' hc'; simp at hc'; rw [hc']; exact ⟨by simp, hrc⟩
+    · simp only [h1, if_false]
+      have h1' : st.minUsage ≤ rem c / use c := by
+        by_contra h; exact h1 (Or.inr (by linarith))
+      by_cases h2 : st.minUsage = rem c / use c
+      · simp only [h2, if_true]
+        right
+        refine ⟨by simp, hrou, ?_, ?_, by simp⟩
+        · intro c' hc'
+          simp at hc'
+          rcases hc' with hc' | hc'
+          · rw [← h2]; exact hle c' hc'
+          · rw [hc', hrc]
+        · intro c' hc'
+          simp at hc'
+          rcases hc' with hc' | hc'
+          · rw [← h2]; exact ⟨by simp [(hsat c' hc').1], (hsat c' hc').2⟩
+          · rw [hc']; exact ⟨by simp, hrc⟩
+      · simp only [h2, if_false]
+        right
+        refine ⟨by simp, hmu, ?_, ?_, hne⟩
+        · intro c' hc'
+          simp at hc'
+          rcases hc' with hc' | hc'
+          · exact hle c' hc'
+          · rw [hc']
+            have : st.minUsage * use c ≤ rem c / use c * use c := mul_le_mul_of_nonneg_right h1' (le_of_lt hc.2)
+            linarith
+        · intro c' hc'; exact ⟨by simp [(hsat c' hc').1], (hsat c' hc').2⟩
+
+theorem selFold_spec (rem use : Nat → Rat) (l : List Nat) :
+    ∀ (st : St) (done : List Nat), st.remaining = rem → st.usage = use → (∀ c ∈ l, 0 < rem c ∧ 0 < use c) →
+      (∀ c ∈ done, 0 < use c) → SelQ rem use done st.minUsage st.sat →
+      let r := l.foldl (fun st c => satCnstUpdate (st.remaining c / st.usage c) c st) st
+      SelQ rem use (done ++ l) r.minUsage r.sat ∧ r.remaining = rem ∧ r.usage = use ∧ r.light = st.light ∧
+      r.fixed = st.fixed ∧ r.value = st.value := by
+  induction l with
+  | nil => intro st done h1 h2 _ _ hQ; simp; exact ⟨hQ, h1, h2⟩
+  | cons c t ih =>
+    intro st done h1 h2 hpos hdone hQ
+    simp only [List.foldl_cons]
+    have hc := hpos c (by simp)
+    have ho := satCnstUpdate_other (st.remaining c / st.usage c) c st
+    have hQ' := satCnstUpdate_Q rem use done st c hQ hc hdone
+    rw [← h1, ← h2] at hQ'
+    have := ih (satCnstUpdate (st.remaining c / st.usage c) c st) (done ++ [c]) (by rw [ho.2.2.1, h1]) (by rw [ho.2.2.2.1, h2])
+      (fun c' hc' => hpos c' (by simp [hc']))
+      (by intro c' hc'; simp at hc'; rcases hc' with h | h; exact hdone c' h; rw [h]; exact hc.2)
+      (by rw [h1, h2] at hQ'; rw [h1, h2]; exact hQ')
+    simp only [] at this ⊢
+    refine ⟨by simpa using this.1, this.2.1, this.2.2.1, ?_, ?_, ?_⟩
+    · rw [this.2.2.2.1, ho.2.2.2.2]
+    · rw [this.2.2.2.2.1, ho.2.1]
+    · rw [this.2.2.2.2.2, ho.1]
+
+
+/-! ### end of a round: new min_usage, new saturated variables -/
+
+/-- the invariant for another value of min_usage that is below every remaining/usage of the light table -/
+theorem inv_rebase (S : Sys) (hwf : WF S) (m m' : Rat) (st : St) (hG : InvG S m st.fixed st.value) (hK : InvK S m st 0 0 [])
+    (hL : InvL S st) (hle : ∀ c ∈ st.light, m' * st.usage c ≤ st.remaining c) :
+    InvG S m' st.fixed st.value ∧ InvK S m' st 0 0 [] := by
+  have hK0 := hK.sh_rem; have hK1 := hK.sh_use
+  simp only [wOf_nil, mul_zero, sub_zero] at hK0 hK1
+  constructor
+  · refine ⟨hG.val0, hG.valpos, hG.valb, hG.sh_H0, ?_, hG.ft_feas⟩
+    intro c hc hf
+    by_cases hl : c ∈ st.light
+    · have := hle c hl
+      rw [hK0 c hc hf, hK1 c hc hf] at this; exact this
+    · rw [hL.lt_sh c hc hl hf]; simpa using hG.sh_H0 c hc hf
+  · refine ⟨hK.sh_rem, hK.sh_use, hK.ft_rem, hK.ft_use, hK.ft_nn, ?_⟩
+    intro c hc hf
+    by_cases hl : c ∈ st.light
+    · have := hle c hl
+      rw [hK.ft_rem c hc hf] at this; exact this
+    · rw [hL.lt_ft c hc hl hf]; simp; exact le_of_lt (hwf.cb_pos c hc)
+
+theorem reselect_inv (S : Sys) (hwf : WF S) (m : Rat) (st : St) (hG : InvG S m st.fixed st.value) (hK : InvK S m st 0 0 [])
+    (hL : InvL S st) :
+    InvG S (reselect st).minUsage (reselect st).fixed (reselect st).value ∧
+    InvK S (reselect st).minUsage (reselect st) 0 0 [] ∧ InvL S (reselect st) ∧
+    SelQ st.remaining st.usage st.light (reselect st).minUsage (reselect st).sat ∧
+    (reselect st).fixed = st.fixed ∧ (reselect st).value = st.value ∧ (reselect st).light = st.light ∧
+    (reselect st).remaining = st.remaining ∧ (reselect st).usage = st.usage := by
+  have h := selFold_spec st.remaining st.usage st.light { st with minUsage := -1, sat := [] } [] rfl rfl
+    hL.li_pos (by simp) (Or.inl ⟨rfl, rfl, rfl⟩)
+  simp only [List.nil_append] at h
+  change SelQ st.remaining st.usage st.light (reselect st).minUsage (reselect st).sat ∧ (reselect st).remaining = st.remaining ∧
+    (reselect st).usage = st.usage ∧ (reselect st).light = st.light ∧ (reselect st).fixed = st.fixed ∧
+    (reselect st).value = st.value at h
+  obtain ⟨hQ, hr, hu, hl, hf, hv⟩ := h
+  have hL' : InvL S (reselect st) := by
+    constructor
+    · intro c hc hnl hfp; rw [hl] at hnl; rw [hf]; exact hL.lt_sh c hc hnl hfp
+    · intro c hc hnl hfp; rw [hl] at hnl; rw [hu]; exact hL.lt_ft c hc hnl hfp
+    · intro c hc; rw [hl] at hc; exact hL.li_act c hc
+    · intro c hc; rw [hl] at hc; rw [hr, hu]; exact hL.li_pos c hc
+    · rw [hl]; exact hL.li_nd
+  have hle : ∀ c ∈ st.light, (reselect st).minUsage * st.usage c ≤ st.remaining c := by
+    intro c hc
+    rcases hQ with ⟨hd, _, _⟩ | ⟨_, _, hle, _, _⟩
+    · rw [hd] at hc; simp at hc
+    · exact hle c hc
+  have hb := inv_rebase S hwf m (reselect st).minUsage st hG hK hL hle
+  refine ⟨by rw [hf, hv]; exact hb.1, ?_, hL', hQ, hf, hv, hl, hr, hu⟩
+  have k := hb.2
+  constructor
+  · intro c hc hfp; rw [hr, hf, hv]; exact k.sh_rem c hc hfp
+  · intro c hc hfp; rw [hu, hf]; exact k.sh_use c hc hfp
+  · intro c hc hfp; rw [hr]; exact k.ft_rem c hc hfp
+  · intro c hc hfp e he hfx hw; rw [hf] at hfx; rw [hu]; exact k.ft_use c hc hfp e he hfx hw
+  · intro c hc hfp; rw [hu]; exact k.ft_nn c hc hfp
+  · intro c hc hfp; rw [hu]; exact k.ft_B c hc hfp
+
+theorem mem_activeElems (S : Sys) (st : St) (c : Nat) (e : Nat × Rat) :
+    e ∈ activeElems S st c ↔ (e ∈ (S.cnst c).elems ∧ 0 < e.2 ∧ st.fixed e.1 = false) := by
+  unfold activeElems; simp
+
+/-- inner loop of `saturated_variable_set_update` -/
+theorem satVarInner_spec (es : List (Nat × Rat)) : ∀ sv : List Nat, sv.Nodup →
+    let r := es.foldl (fun sv e => if 0 < e.2 ∧ ¬ e.1 ∈ sv then sv ++ [e.1] else sv) sv
+    r.Nodup ∧ (∀ v ∈ sv, v ∈ r) ∧ (∀ e ∈ es, 0 < e.2 → e.1 ∈ r) ∧ (∀ v ∈ r, v ∈ sv ∨ ∃ e ∈ es, 0 < e.2 ∧ e.1 = v) := by
+  induction es with
+  | nil => intro sv h; simp [h]
+  | cons a t ih =>
+    intro sv hnd
+    simp only [List.foldl_cons]
+    by_cases hc : 0 < a.2 ∧ ¬ a.1 ∈ sv
+    · simp only [hc, not_false_eq_true, and_self, if_true]
+      have hnd' : (sv ++ [a.1]).Nodup := by
+        rw [List.nodup_append]; refine ⟨hnd, by simp, ?_⟩
+        intro x hx y hy; simp at hy; rw [hy]; intro h; exact hc.2 (h ▸ hx)
+      have := ih (sv ++ [a.1]) hnd'
+      simp only [] at this
+      refine ⟨this.1, fun v hv => this.2.1 v (by simp [hv]), ?_, ?_⟩
+      · intro e he hw
+        simp at he
+        rcases he with rfl | he
+        · exact this.2.1 _ (by simp)
+        · exact this.2.2.1 e he hw
+      · intro v hv
+        rcases this.2.2.2 v hv with h | ⟨e, he, hw, rfl⟩
+        · simp at h
+          rcases h with h | h
+          · exact Or.inl h
+          · exact Or.inr ⟨a, by simp, hc.1, h.symm⟩
+        · exact Or.inr ⟨e, by simp [he], hw, rfl⟩
+    · simp only [hc, if_false]
+      have := ih sv hnd
+      simp only [] at this
+      refine ⟨this.1, this.2.1, ?_, ?_⟩
+      · intro e he hw
+        simp at he
+        rcases he with rfl | he
+        · have hmem : e.1 ∈ sv := by
+            by_contra h; exact hc ⟨hw, h⟩
+          exact this.2.1 _ hmem
+        · exact this.2.2.1 e he hw
+      · intro v hv
+        rcases this.2.2.2 v hv with h | ⟨e, he, hw, rfl⟩
+        · exact Or.inl h
+        · exact Or.inr ⟨e, by simp [he], hw, rfl⟩
+
+theorem satVarUpdate_spec (S : Sys) (st : St) :
+    (satVarUpdate S st []).Nodup ∧
+    (∀ v ∈ satVarUpdate S st [], ∃ c ∈ st.sat, ∃ e ∈ (S.cnst c).elems, 0 < e.2 ∧ st.fixed e.1 = false ∧ e.1 = v) ∧
+    (∀ c ∈ st.sat, ∀ e ∈ (S.cnst c).elems, 0 < e.2 → st.fixed e.1 = false → e.1 ∈ satVarUpdate S st []) := by
+  unfold satVarUpdate
+  have gen : ∀ (cs : List Nat) (sv : List Nat), sv.Nodup →
+      let r := cs.foldl (fun sv c =>
+        (activeElems S st c).foldl (fun sv e => if 0 < e.2 ∧ ¬ e.1 ∈ sv then sv ++ [e.1] else sv) sv) sv
+      r.Nodup ∧ (∀ v ∈ sv, v ∈ r) ∧
+      (∀ v ∈ r, v ∈ sv ∨ ∃ c ∈ cs, ∃ e ∈ (S.cnst c).elems, 0 < e.2 ∧ st.fixed e.1 = false ∧ e.1 = v) ∧
+      (∀ c ∈ cs, ∀ e ∈ (S.cnst c).elems, 0 < e.2 → st.fixed e.1 = false → e.1 ∈ r) := by
+    intro cs
+    induction cs with
+    | nil => intro sv h; simp [h]
+    | cons c t ih =>
+      intro sv hnd
+      simp only [List.foldl_cons]
+      have h1 := satVarInner_spec (activeElems S st c) sv hnd
+      simp only [] at h1
+      have h2 := ih _ h1.1
+      simp only [] at h2
+      refine ⟨h2.1, fun v hv => h2.2.1 v (h1.2.1 v hv), ?_, ?_⟩
+      · intro v hv
+        rcases h2.2.2.1 v hv with h | ⟨c', hc', e, he, hw, hf, rfl⟩
+        · rcases h1.2.2.2 v h with h | ⟨e, he, hw, rfl⟩
+          · exact Or.inl h
+          · have := (mem_activeElems S st c e).mp he
+            exact Or.inr ⟨c, by simp, e, this.1, hw, this.2.2, rfl⟩
+        · exact Or.inr ⟨c', by simp [hc'], e, he, hw, hf, rfl⟩
+      · intro c' hc' e he hw hf
+        simp at hc'
+        rcases hc' with rfl | hc'
+        · apply h2.2.1
+          exact h1.2.2.1 e ((mem_activeElems S st c' e).mpr ⟨he, hw, hf⟩) hw
+        · exact h2.2.2.2 c' hc' e he hw hf
+  have := gen st.sat [] (by simp)
+  simp only [] at this
+  refine ⟨this.1, ?_, this.2.2.2⟩
+  intro v hv
+  rcases this.2.2.1 v hv with h | h
+  · simp at h
+  · exact h
+
 end SgVerif.Lmm
